@@ -73,7 +73,9 @@ inline void svprintscripts(std::vector<std::string>& l, int& lmax, std::vector<C
             l.push_back(s);
         }
 
-        if (it == script->end()) begun = true;
+        // from the next script on the iterator is reset, whether this script could be decoded to its end or not
+        // (carried over after an undecodable operation it walked from this script's buffer into the next one's)
+        begun = true;
     }
 }
 
